@@ -559,7 +559,25 @@ func PartitionCompleteness(p *core.Program, r *core.Report, rule string) {
 		}
 		return true
 	})
+	var lookIn func(e ast.Node, depth int)
+	lookIn = func(e ast.Node, depth int) {
+		ast.Inspect(e, func(n ast.Node) bool {
+			if id, ok := n.(*ast.Ident); ok && depth < 3 {
+				// a local that only names an expression (allIPs := []*IPBlock{GetCidrAll()}) stands for it
+				if d := ResolveLocal(info, fd.Decl.Body, id); d != ast.Expr(id) {
+					lookIn(d, depth+1)
+				}
+			}
+			if c, ok := n.(*ast.CallExpr); ok {
+				if fn := core.Callee(info, c); fn != nil && core.RefName(fn) == "GetCidrAll" {
+					hasAll = true
+				}
+			}
+			return true
+		})
+	}
 	for _, arg := range disjoint.Args {
+		lookIn(arg, 0)
 		ast.Inspect(arg, func(n ast.Node) bool {
 			if id, ok := n.(*ast.Ident); ok && allVar != nil && info.ObjectOf(id) == allVar {
 				hasAll = true
